@@ -72,6 +72,7 @@ def build_programs(rng, tier):
     # two (or more) mutators request a collection at the same moment (seeded regression C11b: a merged request
     # returned false and its requester was not blocked)
     progs += S.gc2_programs(rng, 20 if tier == "quick" else 300)
+    progs += S.nogc_gc2_programs(rng, 1 if tier == "quick" else 6)
     return progs
 
 
